@@ -35,6 +35,38 @@ RED = {
     "first": lambda a, b: a,
 }
 
+
+
+class _Adder:
+    """a callable object (neither a function nor a ufunc)"""
+
+    def __call__(self, a, b):
+        return a + b
+
+
+def red_kinds(name, t=None):
+    """the same two-argument function as different KINDS of callable: lambda, operator function, numpy ufunc, builtin,
+    functools.partial, callable object, and a function that reads the table (flipping its layout) while the fold runs"""
+    import operator
+    import numpy as np
+    kinds = {
+        "add": [("lambda", RED["add"]), ("operator", operator.add), ("ufunc", np.add), ("object", _Adder()),
+                ("partial", functools.partial(lambda k, a, b: a + b + k, 0.0))],
+        "sub": [("lambda", RED["sub"]), ("operator", operator.sub), ("ufunc", np.subtract)],
+        "max": [("lambda", RED["max"]), ("builtin", max), ("ufunc", np.maximum), ("ufunc-fmax", np.fmax)],
+        "last": [("lambda", RED["last"])],
+        "affine": [("lambda", RED["affine"])],
+        "first": [("lambda", RED["first"])],
+    }[name]
+    if t is not None and name == "add" and t.shape[0] and t.shape[1]:
+        def poking(a, b):
+            t.data(t.ids(axis="observation")[0], axis="observation")      # a read inside the fold: CSR
+            t.data(t.ids()[0], axis="sample")                              # ... and CSC
+            return a + b
+        kinds = kinds + [("reads-table", poking)]
+    return kinds
+
+
 AXES = ["sample", "observation", "whole"]
 ACCESSORS = ["nnz", "density", "repr", "queries", "nonzero", "stats", "report", "frames", "mdframes", "head", "render"]
 PROFILES = [None, None, None, {"empty": "raise"}, {"all": "warn"}, {"all": "raise"}, {"empty": "call"}]
@@ -151,6 +183,9 @@ def canon_typed(v):
     """a metadata value / frame cell by KIND and text: text stays text ('0012' is not 12), booleans are not numbers,
     numbers compare by value (pandas may hold an int column as floats)"""
     import json
+    import pandas as pd
+    if v is None or v is pd.NA or (isinstance(v, float) and v != v):
+        return "missing"                       # None in the metadata / the padding of a shorter list
     v = core.canon_value(v)
     if isinstance(v, bool):
         return "bool:%s" % v
@@ -173,7 +208,7 @@ BLANKTEXT = [" 5", "5 ", " 12 ", "7  ", "  0.50"]
 ODDTEXT = ["1_000", "0x10", "1,5", "", " ", "None", "null", "NA", "1e", "--3"]
 BOOLTEXT = ["True", "False", "true", "false", "TRUE"]
 MD_CLASSES = ["numtext", "numtext", "nantext", "blanknum", "numtextbutone", "oddtext", "booltext", "ints", "floats",
-              "bools", "intstr", "boolint", "numtaxonomy"]
+              "bools", "intstr", "boolint", "numtaxonomy", "withnone", "npscalars", "idnamed", "ragged", "ragged"]
 
 
 def md_column(rng, cls, n):
@@ -203,6 +238,15 @@ def md_column(rng, cls, n):
         v = [rng.randint(0, 9) for _ in range(n)]
         v[rng.randrange(n)] = rng.choice(["x", "007"])
         return v
+    if cls == "withnone":
+        v = pick(["a", "b", "0012"])
+        v[rng.randrange(n)] = None
+        return v
+    if cls == "npscalars":
+        import numpy as np
+        mk = rng.choice([lambda: np.int64(rng.randint(0, 9)), lambda: np.float64(rng.choice([0.5, 2.0, -1.25])),
+                         lambda: np.bool_(rng.random() < 0.5)])
+        return [mk() for _ in range(n)]
     if cls == "boolint":
         v = [rng.randint(0, 3) for _ in range(n)]
         v[rng.randrange(n)] = True
@@ -222,25 +266,67 @@ def enrich_md(rng, spec, axes=("obs", "samp"), classes=None):
         if md is None:
             md = [{} for _ in ids]
         cls = classes or rng.sample(MD_CLASSES, rng.randint(1, 3))
+        ragged = "ragged" in cls
+        cls = [c for c in cls if c != "ragged"]
         for c in cls:
+            if c == "idnamed":
+                # a category named like an ID of the axis / like a field of the frame
+                name = rng.choice([ids[0], "id", "index", "columns", "metadata", "shape"])
+                for n_, e in enumerate(md):
+                    e[name] = "v%d" % n_
+                continue
             if c == "numtaxonomy":
                 for e in md:
                     e["taxonomy"] = [rng.choice(NUMTEXT), rng.choice(NUMTEXT)]
                 continue
             for e, v in zip(md, md_column(rng, c, len(ids))):
                 e[c] = v
+        if ragged and len(ids) >= 2:
+            # a list (or tuple) category of uneven length, last / first / in the middle; the first ID mostly not the longest
+            lens = [rng.randint(1, 4) for _ in ids]
+            if rng.random() < 0.7:
+                lens[0] = 1
+                lens[rng.randrange(1, len(ids))] = rng.randint(2, 4)
+            as_tuple = rng.random() < 0.3
+            where = rng.choice(["last", "first", "middle"])
+            for q, (e, ln) in enumerate(zip(md, lens)):
+                v = ["L%d_%s" % (i, rng.choice("abc")) for i in range(ln)]
+                items = list(e.items())
+                pos = {"last": len(items), "first": 0, "middle": len(items) // 2}[where]
+                items.insert(pos, ("lineage", tuple(v) if as_tuple else v))
+                e.clear()
+                e.update(items)
         spec[mk] = md
     return spec
 
 
-def homogeneous(md):
-    """every ID of the axis carries the same categories in the same order, list-valued ones with the same length (the
-    domain of the metadata frame)"""
+def md_kind(md):
+    """'homogeneous': every ID carries the same categories in the same order, list-valued ones of the same length;
+    'ragged': the same categories, list/tuple-valued ones of uneven length, and SOME ID has every list at its longest
+    (the frame takes its column layout from the longest expansion: shorter lists leave their last columns missing,
+    every other value stays under its own column - repaired defect 6363233a);
+    'ragged-undominated': no single ID has all lists at their longest (the layout of one entry cannot hold them all:
+    not judged, reported); 'partial': IDs with differing categories (outside the domain of the metadata frame)"""
     if md is None or len(md) == 0:
-        return True
-    shape = lambda m: [(k, len(v) if isinstance(v, (list, tuple)) else -1) for k, v in m.items()]   # noqa
-    first = shape(md[0])
-    return all(shape(m) == first for m in md)
+        return "homogeneous"
+    keys = [[(k, isinstance(v, (list, tuple))) for k, v in m.items()] for m in md]
+    if any(k != keys[0] for k in keys):
+        return "partial"
+    lists = [k for k, is_list in keys[0] if is_list]
+    if all(len({len(m[k]) for m in md}) == 1 for k in lists):
+        return "homogeneous"
+    longest = {k: max(len(m[k]) for m in md) for k in lists}
+    if any(all(len(m[k]) == longest[k] for k in lists) for m in md):
+        return "ragged"
+    return "ragged-undominated"
+
+
+def homogeneous(md):
+    return md_kind(md) != "partial"
+
+
+def frame_defined(md):
+    return md_kind(md) in ("homogeneous", "ragged")
 
 
 def canon_json(v):
@@ -249,7 +335,14 @@ def canon_json(v):
 
 
 def canon_str(v):
-    return str(core.canon_value(v))
+    """the text a TSV field shows; an empty field and a missing value are the same thing there"""
+    import numpy as np
+    if v is None or (isinstance(v, float) and v != v):
+        return "missing"
+    if isinstance(v, np.ndarray):
+        return str(v)                          # a list category as HDF5 hands it back: written with its own str()
+    text = str(core.canon_value(v))
+    return text if text != "" else "missing"
 
 
 def parse_num(s):
@@ -379,6 +472,7 @@ class Checker:
         self.recipe = None
         self.cli_rng = None
         self.wfilter = "ignore"
+        self.vrng = None
 
     def ask(self, req, case, tags, nt=True, known_clause=None, known_tags=()):
         ctx = self.ctx
@@ -404,23 +498,39 @@ class Checker:
         """all axes/modes of every array summary; `only`: restrict to these query names; `exact=False`: leave out the
         figures that add floats up (after `norm` the values are no dyadic fractions); `order`: an rng that shuffles
         the order in which the accessors are called"""
+        import numpy as np
+        vr = order if order is not None else self.vrng          # variation of binding / flag spelling / callable kind
+        kw = lambda: vr is not None and vr.random() < 0.4       # noqa  keyword instead of positional binding
+
+        def flag(b):
+            """a flag as bool, numpy bool or int"""
+            if vr is None:
+                return b
+            return vr.choice([b, b, np.bool_(b), int(b)])
         specs = []
         for ax in AXES:
-            specs.append(({"q": "sum", "axis": ax}, lambda ax=ax: t.sum(ax)))
-            specs.append(({"q": "min", "axis": ax}, lambda ax=ax: t.min(ax)))
-            specs.append(({"q": "max", "axis": ax}, lambda ax=ax: t.max(ax)))
+            specs.append(({"q": "sum", "axis": ax}, (lambda ax=ax: t.sum(axis=ax)) if kw() else (lambda ax=ax: t.sum(ax))))
+            specs.append(({"q": "min", "axis": ax}, (lambda ax=ax: t.min(axis=ax)) if kw() else (lambda ax=ax: t.min(ax))))
+            specs.append(({"q": "max", "axis": ax}, (lambda ax=ax: t.max(axis=ax)) if kw() else (lambda ax=ax: t.max(ax))))
             for b in (True, False):
+                fb = flag(b)
                 specs.append(({"q": "nzc", "axis": ax, "binary": b},
-                              lambda ax=ax, b=b: t.nonzero_counts(ax, binary=b)))
-        # the documented defaults: sum() is 'whole', min()/max() are 'sample'
+                              (lambda ax=ax, fb=fb: t.nonzero_counts(axis=ax, binary=fb)) if kw() else
+                              (lambda ax=ax, fb=fb: t.nonzero_counts(ax, fb))))
+        # the documented defaults: sum() is 'whole', min()/max() are 'sample', nonzero_counts(axis) is binary
         specs.append(({"q": "sum", "axis": "whole"}, lambda: t.sum()))
         specs.append(({"q": "min", "axis": "sample"}, lambda: t.min()))
         specs.append(({"q": "max", "axis": "sample"}, lambda: t.max()))
+        specs.append(({"q": "nzc", "axis": "observation", "binary": True}, lambda: t.nonzero_counts("observation")))
         specs.append(({"q": "density"}, lambda: t.get_table_density()))
         specs.append(({"q": "nnz"}, lambda: t.nnz))
         for ax in AXES[:2]:
             for fname in RED:
-                specs.append(({"q": "reduce", "f": fname, "axis": ax}, lambda ax=ax, fname=fname: t.reduce(RED[fname], ax)))
+                kinds = red_kinds(fname, t)
+                kind, f = kinds[0] if vr is None else vr.choice(kinds)
+                self.ctx.count("reduce-callable=%s" % kind)
+                specs.append(({"q": "reduce", "f": fname, "axis": ax},
+                              (lambda ax=ax, f=f: t.reduce(f=f, axis=ax)) if kw() else (lambda ax=ax, f=f: t.reduce(f, ax))))
         if max(t.shape) > 30:
             # 2a+b over a long vector leaves the range where binary64 arithmetic is exact (generator contract)
             specs = [x for x in specs if x[0].get("f") != "affine"]
@@ -465,7 +575,13 @@ class Checker:
     def stats(self, t, inp, tag, tags, binaries=(False, True)):
         from biom.util import compute_counts_per_sample_stats
         for b in binaries:
-            mn, mx, med, mean, counts = compute_counts_per_sample_stats(t, b)
+            import numpy as np
+            vr = self.vrng
+            fb = b if vr is None else vr.choice([b, np.bool_(b), int(b)])
+            if vr is not None and vr.random() < 0.5:
+                mn, mx, med, mean, counts = compute_counts_per_sample_stats(t, binary_counts=fb)
+            else:
+                mn, mx, med, mean, counts = compute_counts_per_sample_stats(t, fb)
             st = {"min": core.frac(mn), "max": core.frac(mx), "median": core.frac(med), "mean": core.frac(mean),
                   "counts": [[str(k), core.frac(v)] for k, v in counts.items()]}
             self.ask({"op": "stats", "table": inp["table"], "binary": b, "stats": st},
@@ -477,10 +593,19 @@ class Checker:
             for o in (False, True):
                 if via == "api":
                     try:
+                        import numpy as np
+                        vr = self.vrng
+                        fq, fo = (q, o) if vr is None else (vr.choice([q, np.bool_(q), int(q)]),
+                                                            vr.choice([o, np.bool_(o), int(o)]))
                         with warnings.catch_warnings():
                             warnings.simplefilter(self.wfilter if len(inp["table"]["samp"]) and len(inp["table"]["obs"])
                                                   else "ignore")     # std of no counts warns by nature
-                            text = _summarize_table(t, qualitative=q, observations=o)
+                            if vr is not None and vr.random() < 0.4:
+                                text = _summarize_table(t, fq, fo)
+                            elif not q and not o and vr is not None and vr.random() < 0.5:
+                                text = _summarize_table(t)
+                            else:
+                                text = _summarize_table(t, qualitative=fq, observations=fo)
                     except Exception as e:  # noqa
                         self.ctx.case({"check": "report", "tag": tag, "q": q, "o": o, "raised": True}, nontrivial=True)
                         self.ctx.fail({"check": "report", "tag": tag, "table": inp["table"], "qualitative": q,
@@ -548,6 +673,8 @@ class Checker:
             if n is None and m is None:
                 h = t.head()                        # defaults: 5 x 5
                 n = m = 5
+            elif self.vrng is not None and self.vrng.random() < 0.5:
+                h = t.head(n=n, m=m)
             else:
                 h = t.head(n, m)
             res = {"ok": {k: core.table_obs(h)[k] for k in ("obs", "samp", "rows")}}
@@ -590,7 +717,14 @@ class Checker:
     def frames(self, t, inp, tag, tags):
         import numpy as np
         for sparse in (False, True):
-            df = t.to_dataframe(dense=not sparse)
+            vr = self.vrng
+            dense = (not sparse) if vr is None else vr.choice([not sparse, np.bool_(not sparse), int(not sparse)])
+            if sparse and (vr is None or vr.random() < 0.5):
+                df = t.to_dataframe()                                    # the default is the sparse frame
+            elif vr is not None and vr.random() < 0.5:
+                df = t.to_dataframe(dense)
+            else:
+                df = t.to_dataframe(dense=dense)
             arr = np.asarray(df, dtype=float).reshape(len(df.index), len(df.columns))
             cells = [[None if x != x else core.frac(x) for x in row] for row in arr.tolist()]
             fr = {"index": [str(x) for x in df.index], "columns": [str(x) for x in df.columns], "cells": cells}
@@ -604,9 +738,10 @@ class Checker:
 
     def mdframes(self, t, inp, tag, tags):
         for axis in ("sample", "observation"):
-            if not homogeneous(t.metadata(axis=axis)):
-                self.ctx.count("mdframe=skipped-partially-annotated")
+            if not frame_defined(t.metadata(axis=axis)):
+                self.ctx.count("mdframe=skipped-%s" % md_kind(t.metadata(axis=axis)))
                 continue
+            self.ctx.count("mdframe-metadata=%s" % md_kind(t.metadata(axis=axis)))
             ids = [str(x) for x in t.ids(axis=axis)]
             md = md_entries(t, axis, canon_typed)
             try:
@@ -642,8 +777,8 @@ class Checker:
                     self.ctx.fail({"check": "export-metadata", "tag": tag, "recipe": self.recipe},
                                   "export-metadata wrote a file that was not asked for", list(tags) + [axis])
                 continue
-            if not homogeneous(seen.metadata(axis=axis)):
-                self.ctx.count("export-metadata=skipped-partially-annotated")
+            if not frame_defined(seen.metadata(axis=axis)):
+                self.ctx.count("export-metadata=skipped-%s" % md_kind(seen.metadata(axis=axis)))
                 continue
             ids = [str(x) for x in t.ids(axis=axis)]
             md = md_entries(seen, axis, canon_str)
@@ -655,7 +790,7 @@ class Checker:
                 with open(outs[axis], newline="") as f:
                     rows = list(csv.reader(f, delimiter="\t"))
                 res = {"ok": {"index": [x[0] for x in rows[1:]], "columns": rows[0][1:],
-                              "rows": [x[1:] for x in rows[1:]]}}
+                              "rows": [[c if c != "" else "missing" for c in x[1:]] for x in rows[1:]]}}
             else:
                 res = {"error": "Key"}
             self.ctx.count("export-metadata=%s" % ("ok" if "ok" in res else "no-metadata"))
@@ -745,6 +880,7 @@ class Checker:
                     self.ctx.count("poke=%s" % c)
             self.ctx.count("layout-at-call=%s" % t.matrix_data.getformat())
             self.wfilter = wfilter
+            self.vrng = rng
             try:
                 with warnings.catch_warnings():
                     warnings.simplefilter(wfilter)
@@ -755,11 +891,16 @@ class Checker:
                             self.group(t, g, tag, tags, rng, exact=exact)
             finally:
                 self.wfilter = "ignore"
+                self.vrng = None
         return inp
 
     # ------------------------------------------------------------------ histories
     def access(self, t, name, tag, tags, rng, exact=True):
-        self.group(t, name, tag, tags, rng, exact=exact)
+        self.vrng = rng
+        try:
+            self.group(t, name, tag, tags, rng, exact=exact)
+        finally:
+            self.vrng = None
 
     def history(self, base, hseed, tag, tags, script=None):
         """summaries -> an in-place change -> summaries again; the second answers are judged against the table's
@@ -899,7 +1040,7 @@ class Checker:
             x = mk()
             exports[name] = (x, self.snap(x))
         for axis in ("sample", "observation"):
-            if t.metadata(axis=axis) is not None and homogeneous(t.metadata(axis=axis)):
+            if t.metadata(axis=axis) is not None and frame_defined(t.metadata(axis=axis)):
                 x = t.metadata_to_dataframe(axis)
                 exports["mdframe-" + axis] = (x, self.snap(x))
         return derived, exports
@@ -932,11 +1073,17 @@ class Checker:
 
 # ----------------------------------------------------------------------------- corpus
 def fixed_corpus():
-    """original failing input of the repaired defect (e53d552b) first: a sparse input that stores an explicit zero"""
+    """the original failing inputs of the repaired defects first"""
     import numpy as np
     import scipy.sparse as sp
     from biom import Table
     out = []
+    # repaired defect 6363233a: an uneven list category FOLLOWED by another category (values must stay in their columns)
+    out.append(("ragged-list-not-last", lambda: Table(
+        np.array([[1., 2], [3, 4]]), ["a", "b"], ["c", "d"],
+        [{"taxonomy": ["k__A", "p__x"], "grp": "g1"}, {"taxonomy": ["k__A", "p__x", "c__z"], "grp": "g2"}],
+        [{"path": ("r", "s", "t"), "n": 7}, {"path": ("r",), "n": 8}])))
+    # repaired defect e53d552b: a sparse input that stores an explicit zero
     # 2x3, row 0 stores an explicit 0 at column 1: min over observations must be [3, 2], not [0, 2]
     m = sp.csr_matrix((np.array([3.0, 0.0, 5.0, 2.0]), np.array([0, 1, 2, 1]), np.array([0, 3, 4])), shape=(2, 3))
     out.append(("stored-zero-csr", lambda m=m: Table(m.copy(), ["o1", "o2"], ["s1", "s2", "s3"])))
@@ -967,6 +1114,11 @@ def fixed_corpus():
     out.append(("nasty-ids", lambda: Table(np.arange(1.0, len(na) * len(nb) + 1).reshape(len(na), len(nb)) % 7, na, nb,
                                             [{"k%": "v%d" % i, "\"q": "50%"} for i in range(len(na))],
                                             [{"#k": "x%%y", "p": "%s"} for i in range(len(nb))])))
+    out.append(("ragged-lists", lambda: Table(
+        np.array([[1.0, 0, 2], [0, 3, 4]]), ["o1", "o2"], ["s1", "s2", "s3"],
+        [{"grp": "a", "taxonomy": ["k__A", "p__x"]}, {"grp": "b", "taxonomy": ["k__A", "p__x", "c__y", "o__z"]}],
+        [{"path": ("r",), "n": 1, "z": "u"}, {"path": ("r", "s", "t"), "n": 2, "z": "v"},
+         {"path": ("r", "s"), "n": 3, "z": "w"}])))
     out.append(("print-tie-0.0625", lambda: Table(np.array([[0.0625, 0.0], [0.0, 0.1875]]), ["a", "b"], ["x", "y"])))
     return out
 
@@ -1190,10 +1342,11 @@ def run(ctx):
                 k_det += 1
                 if not ctx.mine(k_det):
                     continue
-                chk.recipe = {"kind": "fixed", "name": "md-numeric-text", "post": "none"}
-                t = from_recipe(chk.recipe)
-                chk.export_md(t, input_obs(t), "fixed:md-numeric-text/%s/%s" % (fmt, which), ("fixed", "export"), fmt,
-                              which=which)
+                for name in ("ragged-list-not-last", "md-numeric-text", "ragged-lists"):
+                    chk.recipe = {"kind": "fixed", "name": name, "post": "none"}
+                    t = from_recipe(chk.recipe)
+                    chk.export_md(t, input_obs(t), "fixed:%s/%s/%s" % (name, fmt, which), ("fixed", "export"), fmt,
+                                  which=which)
         # more than 512 IDs on an axis (block-wise paths): rendered in full at least once per run
         for tk, taxis in enumerate(["observation", "sample"]):
             k_det += 1
@@ -1250,7 +1403,7 @@ def run(ctx):
                 ctx.count("route=%s" % route)
                 ctx.count("post=%s" % post)
         # 3. random tables
-        n_tables = 135 if ctx.quick() else 10000 // ctx.worker[1]
+        n_tables = 120 if ctx.quick() else 10000 // ctx.worker[1]
         cli_share = 0.15 if ctx.quick() else 0.1
         hist_share = 0.6
         for k in range(n_tables):
